@@ -1,6 +1,7 @@
 import Driver.Common
 import SH.Model.Journal
 import SH.Model.MetaIndex
+import SH.Model.CompactMetric
 
 open SH
 open SH.Journal
@@ -159,4 +160,73 @@ def step (s : St) (toks : List String) : St × List String :=
     | _, _, _ => (s, ["bad-op"])
   | _ => (s, ["bad-op"])
 
-def main : IO Unit := Driver.run { init := ({} : St), step := step }
+/-! ### `cf`: the compact form of one metric content, computed by the model -/
+
+open SH.CompactMetric in
+def hexStr? (s : String) : Option Str := (parseHex? s).map (fun b => b.map (·.toNat))
+
+open SH.CompactMetric in
+def hxOut (s : Str) : String := showHex (s.map (fun n => UInt8.ofNat n))
+
+open SH.CompactMetric in
+def parseTag? (s : String) : Option Tag :=
+  match s.splitOn ":" with
+  | [a, b, c, d] => match hexStr? a, hexStr? b, hexStr? c, d.toNat? with
+    | some a, some b, some c, some d => some { name := a, desc := b, raw := c, ncomm := d }
+    | _, _, _, _ => none
+  | _ => none
+
+open SH.CompactMetric in
+def parseDraft? (s : String) : Option Draft :=
+  match s.splitOn ":" with
+  | [a, b, c, d] => match hexStr? a, hexStr? b, hexStr? c, hexStr? d with
+    | some a, some b, some c, some d => some { key := a, name := b, desc := c, raw := d }
+    | _, _, _, _ => none
+  | _ => none
+
+def flagAt (s : String) (i : Nat) : Bool := s.toList.getD i '0' = '1'
+
+open SH.CompactMetric in
+def parseMF? (toks : List String) : Option (MF × EvHead) :=
+  match toks with
+  | [desc, kind, w, res, dis, stn, std, pkt, pkf, flags, mtype, tags, drafts, ids, head] =>
+    match hexStr? desc, hexStr? kind, w.toNat?, res.toNat?, dis.toNat?, hexStr? stn, hexStr? std, hexStr? pkt, pkf.toNat?,
+          hexStr? mtype, (parseList tags).mapM parseTag?, (parseList drafts).mapM parseDraft? with
+    | some desc, some kind, some w, some res, some dis, some stn, some std, some pkt, some pkf, some mtype, some tags, some drafts =>
+      match (ids.drop 4).toString.splitOn ":", (head.drop 5).toString.splitOn ":" with
+      | [a, b, c, d], [h1, h2, h3, h4] =>
+        match a.toInt?, b.toInt?, hexStr? c, d.toInt?, h1.toNat?, h2.toNat?, h3.toNat?, h4.toNat? with
+        | some a, some b, some c, some d, some h1, some h2, some h3, some h4 =>
+          if flags.length ≠ 4 || !ids.startsWith "ids=" || !head.startsWith "head=" then none else
+          some ({ desc := desc, kind := kind, weight := w, res := res, dis := dis = 1, stn := stn, std := std, pkt := pkt, pkf := pkf,
+                  skipMax := flagAt flags 0, skipMin := flagAt flags 1, skipSq := flagAt flags 2, pkOnly := flagAt flags 3,
+                  mtype := mtype, tags := tags, drafts := drafts, mid := a, ns := b, vname := c, ver := d },
+                { fieldMask := h1, unused := h2, updateTime := h3, hasMeta := h4 = 1 })
+        | _, _, _, _, _, _, _, _ => none
+      | _, _ => none
+    | _, _, _, _, _, _, _, _, _, _, _, _ => none
+  | _ => none
+
+open SH.CompactMetric in
+def renderMF (m : MF) (h : EvHead) : String :=
+  let ts := m.tags.map (fun t => s!"{hxOut t.name}:{hxOut t.desc}:{hxOut t.raw}:{t.ncomm}")
+  let ds := m.drafts.map (fun d => s!"{hxOut d.key}:{hxOut d.name}:{hxOut d.desc}:{hxOut d.raw}")
+  s!"cf {hxOut m.desc} {hxOut m.kind} {m.weight} {m.res} {b2i m.dis} {hxOut m.stn} {hxOut m.std} {hxOut m.pkt} {m.pkf} " ++
+  s!"{b2i m.skipMax}{b2i m.skipMin}{b2i m.skipSq}{b2i m.pkOnly} {hxOut m.mtype} {showList ts} {showList ds} " ++
+  s!"ids={m.mid}:{m.ns}:{hxOut m.vname}:{m.ver} head={h.fieldMask}:{h.unused}:{h.updateTime}:{b2i h.hasMeta}"
+
+open SH.CompactMetric in
+def stepCf (toks : List String) : List String :=
+  match toks with
+  | _k :: name :: rest =>
+    match hexStr? name, parseMF? rest with
+    | some name, some (m, h) => [renderMF (compactForm .orig name m) (compactHead h)]
+    | _, _ => ["bad-op"]
+  | _ => ["bad-op"]
+
+def stepAll (s : St) (toks : List String) : St × List String :=
+  match toks with
+  | "cf" :: rest => (s, stepCf rest)
+  | _ => step s toks
+
+def main : IO Unit := Driver.run { init := ({} : St), step := stepAll }
